@@ -18,8 +18,11 @@ LEVEL_TEXT = ("Theorems in Lean for all strings: html escaping decodes back to t
               "diffs the element structure against the same tree with alphabetic strings and compares visible text character for character.")
 LEVEL_NOTE = ("Partial: titles, breadcrumbs and list entries of the site go through Jinja2 autoescape and lxml (outside the model): checked per generated site "
               "by the oracle with html.parser. Trailing whitespace of a description in a cell that also holds a conversions list is dropped by t()'s rstrip "
-              "(invisible in HTML; visible text is compared modulo HTML whitespace collapsing). Trusted: Lean kernel.")
-LEAN_MODULES = ["RecipeGrid.Props.C10"]
+              "(invisible in HTML; visible text is compared modulo HTML whitespace collapsing). Non-interference is a theorem against a tokenizer written in Lean (renderSvs_skeleton / renderAmount_skeleton: "
+              "strings that differ only in their text give the same element structure; renderSvs_text, renderQuantity_text_full: the visible text is the "
+              "text verbatim; tagBody_attr_roundtrip: an attribute value derived from user text is one well-formed attribute decoding to that value). "
+              "Trusted: Lean kernel.")
+LEAN_MODULES = ["RecipeGrid.Props.C10", "RecipeGrid.Props.C10b"]
 SOURCES = ["recipe_grid/renderer/html.py", "recipe_grid/markdown.py", "recipe_grid/static_site/templates/__init__.py"]
 RULE = ("recipe trees whose every user string (ingredient, step, output name, free-form unit, preposition, remainder wording) is drawn from strings over "
         "< > & \" ' backslash braces percent hash Unicode and spaces, with random id prefixes; Markdown titles with the same characters; non-trivial = some "
@@ -70,7 +73,8 @@ def gen_cases(run, n):
         if rng.random() < 0.2 and not isinstance(t, SubRecipe):
             t = SubRecipe(t, (nasty_svs(rng), nasty_svs(rng)))
         out.append((t, rng.choice(["recipe-", "recipe2-", "sub-recipe-", "p\"<&>'-"])))
-    return out
+    from .. import gen_trees
+    return gen_trees.with_twins(rng, out)
 
 
 def alpha(s):
